@@ -589,3 +589,68 @@ def parse_chain(ml):
     if toks[0] == 'ok':
         return ('ok', int(toks[1]))
     return ('err', toks[1])
+
+
+# ----------------------------------------------------------------------------- C18: which instance a looked-up wrapper is bound to vs Model/CacheId.lean
+def real_cacheid(req):
+    """a modifiers-decorated method looked up through instances that may compare (and hash) EQUAL, the wrappers held,
+    dropped, collected, the method called, the class accessed: every lookup answers with a wrapper bound to the instance
+    it was made through (model: Model/CacheId.lean, identity mode)"""
+    import gc, weakref
+    from sigtools import modifiers
+    _, deco, ops = req
+
+    class C(object):
+        def __init__(s, label, c):
+            s.label = label
+            s.c = c
+
+        def __eq__(s, o):
+            return isinstance(o, C) and s.c == o.c
+
+        def __hash__(s):
+            return hash(s.c)
+
+        def m(self, a, b=1):
+            return self
+    C.m = {'kwoargs': modifiers.kwoargs('b'), 'posoargs': modifiers.posoargs(end='a'), 'autokwoargs': modifiers.autokwoargs}[deco](C.m)
+    if hasattr(C.m, '__set_name__'):
+        pass
+    reg, held, slots, out = {}, {}, {}, []
+    for op in ops:
+        t = op.split(':')
+        if t[0] == 'new':
+            i, c = int(t[1]), int(t[2])
+            o = reg[i]() if i in reg else None
+            if o is None:
+                o = C(i, c)
+                reg[i] = weakref.ref(o)
+            held[i] = o
+            del o
+        elif t[0] == 'get':
+            i = int(t[1])
+            if i in held:
+                w = held[i].m
+                slots.setdefault(i, []).append(w)
+                out.append(str(w.func.__self__.label))
+                del w
+            else:
+                out.append('X')
+        elif t[0] == 'call':
+            i = int(t[1])
+            if i in held:
+                out.append(str(held[i].m(0).label))
+            else:
+                out.append('X')
+        elif t[0] == 'dropw':
+            slots.pop(int(t[1]), None)
+        elif t[0] == 'dropi':
+            held.pop(int(t[1]), None)
+        elif t[0] == 'gc':
+            gc.collect()
+        elif t[0] == 'cls':
+            out.append('D' if C.m is C.__dict__['m'] else '?')
+    return ('ok', '.'.join(out) if out else '_')
+
+
+OPS['cacheid'] = real_cacheid
